@@ -606,6 +606,14 @@ SubprocessResult run_process(const vector<string>& cmd, const string* stdin_data
     }
   }
 
+  // Close the pipe ends that were not already closed during the poll loop
+  for (const auto& it : read_fd_to_buffer) {
+    close(it.first);
+  }
+  for (const auto& it : write_fd_to_buffer) {
+    close(it.first);
+  }
+
   if (check && sp.wait()) {
     throw runtime_error(string_printf("command returned code %d\nstdout:\n%s\nstderr:\n%s",
         sp.wait(), ret.stdout_contents.c_str(), ret.stderr_contents.c_str()));
